@@ -81,7 +81,10 @@ def do_reject(tree, proof, ev, n, ctx, ksize, default):
             else:
                 tree[k] = v
         elif e == "constructor":
-            smt.SparseMerkleTree(key_size=0 if kind == "zero" else 33)
+            smt.SparseMerkleTree(key_size={"zero": 0, "toolarge": 33 + n % 40, "negative": -1 - n % 3}[kind])
+        elif e == "from_db" and arg == "key_size":
+            smt.SparseMerkleTree.from_db(tree.db, tree.root_hash, default=default,
+                                         key_size={"zero": 0, "toolarge": 33 + n % 40, "negative": -1 - n % 3}[kind])
         elif e == "from_db":
             r = {"notbytes": ba.pick(ba.NOT_BYTES, n), "short": tree.root_hash[:-1], "long": tree.root_hash + b"\x00"}[kind]
             smt.SparseMerkleTree.from_db(tree.db, r, key_size=ksize, default=default)
